@@ -199,6 +199,7 @@ func runC09P(r *simkit.Run, c Cfg) {
 	var got []announce.Announce
 	stop := false
 	nops := tp.Range(6, 30, "nops")
+	idleGossip := 0
 	issued := 0
 	type job struct {
 		kind string
@@ -206,6 +207,8 @@ func runC09P(r *simkit.Run, c Cfg) {
 		ms   []multiaddr.Multiaddr
 		orig string
 		raw  []byte // malformed gossip payload
+		// address bytes as sent, when they are not the encoding of ms
+		rawAddrs [][]byte
 	}
 	next := map[string]*job{}
 	worker := func(name string) {
@@ -221,6 +224,9 @@ func runC09P(r *simkit.Run, c Cfg) {
 					uniq++
 					m := message.Message{Cid: j.p.c, OrigPeer: j.orig, ExtraData: []byte(fmt.Sprintf("u%d", uniq))}
 					m.SetAddrs(j.ms)
+					if j.rawAddrs != nil {
+						m.Addrs = j.rawAddrs
+					}
 					ctx, cancel := context.WithTimeout(context.Background(), 5*time.Second)
 					var err error
 					if name == "gossipS" {
@@ -313,6 +319,14 @@ func runC09P(r *simkit.Run, c Cfg) {
 					case "gossipS":
 						j.kind, j.p.src, j.p.kind = "gossip", pw.send.ID(), "gossip from S"
 						j.p.addrs, j.ms = mkAddrs()
+						if tp.Chance(1, 8, "unknownOnly") {
+							// every address is of a protocol this build does
+							// not know: they are skipped, the announcement is
+							// one without addresses
+							j.p.addrs, j.ms = nil, nil
+							j.rawAddrs = [][]byte{{0xff, 0xff, 0x03, 1, 2}, {0xfe, 0xff, 0x03, 9}}[:1+tp.Choose(2, "unknownOnly.n")]
+							r.Probe("gossip-announcement-with-unknown-protocol-addresses-only")
+						}
 						watcherQ = append(watcherQ, j.p)
 					case "gossipT":
 						if tp.Chance(1, 6, "malformed") {
@@ -391,12 +405,22 @@ func runC09P(r *simkit.Run, c Cfg) {
 			}
 		}
 		if len(acts) == 0 {
-			if issued >= nops && len(got) >= len(expect) {
+			if issued >= nops && len(got) >= len(expect) && len(watcherQ) == 0 {
 				break
+			}
+			if len(watcherQ) > 0 {
+				// a gossip announcement is on its way to the receiver's
+				// allow check; the mesh is up, so it gets there in seconds
+				idleGossip++
+				if idleGossip > 20 {
+					r.Violate("c09.missing", "a gossip announcement (%s, cid %s) published on the topic never reached the receiver's allow filter: it was dropped before anybody looked at it", watcherQ[0].kind, shortCid(cids, watcherQ[0].c))
+					break
+				}
 			}
 			r.Advance(time.Second + jitter(tp))
 			continue
 		}
+		idleGossip = 0
 		r.ChooseAction(acts, "sched")
 	}
 	// drain
